@@ -20,6 +20,7 @@ RULE = ("gates: every built-in x a parameter alphabet (ints, floats incl. 1e-07 
         "save/load (path, StringIO), circuit sets. Oracle = own structural walker (kind, nesting, control counts, exponent, definition, indices, parameters by the "
         "statement's rules) + library == + free symbols + matrices at two assignments. non-trivial = circuit with a wrapped, custom or symbolic gate")
 RULE += ' Also: circuit sets whose members are equal up to the gate tolerance but not identical; histories load -> extend with gates of the original custom definition -> serialise again.'
+RULE += ' Round 7: the parsed document handed to circuit_from_dict / circuitset_from_dict is unchanged and can be read a second time.'
 RULE += ' Round 6: custom definitions whose formal parameters are indexed symbols / shadow sympy names (x[0], p[10], gamma, S, N, E, lambda_), instantiated with numbers, own formals in both orders, other symbols.'
 RULE += ' Round 5: 24 same-named custom definitions with different matrices created, serialised and dropped in one process; exponents 0, 0.0, 1, -1, -0.5, 1/3, -2.0 and 3 controls; empty and singleton circuit sets through files.'
 ASSUMPTIONS = ["symbol names are identifiers other than Python keywords; a plain and an indexed symbol never share a base name; symbols carry no assumptions",
@@ -227,7 +228,19 @@ def roundtrip_case(case):
     c = build_circuit(case)
     pipe = case.get("pipe", "json")
     if pipe == "json":
-        d = C.circuit_from_dict(json.loads(json.dumps(C.to_dict(c))))
+        doc = json.loads(json.dumps(C.to_dict(c)))
+        text_before = json.dumps(doc, sort_keys=True)
+        d = C.circuit_from_dict(doc)
+        # the parsed document is the caller's: reading it does not consume it - it serialises as before and can be read again
+        if json.dumps(doc, sort_keys=True) != text_before:
+            return {"ok": False, "msg": "circuit_from_dict modified the dictionary it was given", "sig": "roundtrip:document-consumed"}
+        d_again = C.circuit_from_dict(doc)
+        if circuits_equal(d, d_again, False) or d_again.n_qubits != d.n_qubits:
+            return {"ok": False, "msg": "reading the same dictionary a second time gives another circuit: " + str(circuits_equal(d, d_again, False)), "sig": "roundtrip:second-read"}
+        own = C.to_dict(c)
+        C.circuit_from_dict(own)
+        if json.dumps(own, sort_keys=True, default=str) != json.dumps(C.to_dict(c), sort_keys=True, default=str):
+            return {"ok": False, "msg": "circuit_from_dict modified the result of to_dict it was given", "sig": "roundtrip:document-consumed"}
     elif pipe == "stringio":
         buf = io.StringIO()
         C.save_circuit(c, buf)
@@ -274,7 +287,11 @@ def set_case(case):
         if len(ds_path) != len(cs) or any(circuits_equal(c, d, False) for c, d in zip(cs, ds_path)):
             return {"ok": False, "msg": "circuit set saved to / loaded from a path differs", "sig": "set:path"}
     else:
-        ds = C.circuitset_from_dict(json.loads(json.dumps(C.to_dict(cs))))
+        doc_s = json.loads(json.dumps(C.to_dict(cs)))
+        text_s = json.dumps(doc_s, sort_keys=True)
+        ds = C.circuitset_from_dict(doc_s)
+        if json.dumps(doc_s, sort_keys=True) != text_s or [str(x) for x in C.circuitset_from_dict(doc_s)] != [str(x) for x in ds]:
+            return {"ok": False, "msg": "circuitset_from_dict consumed / modified the dictionary it was given (a second read differs)", "sig": "set:document-consumed"}
     if len(ds) != len(cs):
         return {"ok": False, "msg": "circuit set of %d came back with %d circuits" % (len(cs), len(ds)), "sig": "set:length"}
     for i, (c, d) in enumerate(zip(cs, ds)):
